@@ -1,6 +1,7 @@
 """Evaluate correspondence cases inside Coq: writes cases_*.v files, runs coqc in parallel and
 returns, per shard, the indices whose `corr` / `oracle` (defined in theories/Corr_<engine>.v) is false.
 The comparison itself is done by Coq (vm_compute); only a short list of numbers is parsed back."""
+import json
 import os
 import re
 import subprocess
@@ -52,15 +53,31 @@ def _run_shard(args):
     return {"ok": True, "lists": [[int(x) for x in re.findall(r"\d+", l)] for l in lists], "path": path}
 
 
-def evaluate(engine, tag, cases, funcs=("corr", "oracle"), jobs=16, shard=SHARD):
+def evaluate(engine, tag, cases, funcs=("corr", "oracle"), jobs=16, shard=SHARD, max_bytes=250000):
     """returns ({func: [indices into cases]}, errors)"""
     os.makedirs(CASEDIR, exist_ok=True)
-    shards = [(engine, tag, k, cases[i:i + shard], funcs) for k, i in enumerate(range(0, len(cases), shard))]
+    # consecutive cases are grouped into shards of at most `shard` cases and about `max_bytes` of JSON text
+    # (elaborating the case literals dominates the cost, so big cases get shards of their own)
+    shards, bases, cur, cur_bytes, start = [], [], [], 0, 0
+    for i, c in enumerate(cases):
+        sz = c.get("_size") or len(json.dumps(c["i"])) + len(json.dumps(c["o"]))
+        if cur and (len(cur) >= shard or cur_bytes + sz > max_bytes):
+            shards.append((engine, tag, len(shards), cur, funcs))
+            bases.append(start)
+            cur, cur_bytes, start = [], 0, i
+        cur.append(c)
+        cur_bytes += sz
+    if cur:
+        shards.append((engine, tag, len(shards), cur, funcs))
+        bases.append(start)
+    # biggest first so that the long ones do not end up last in the pool
+    order = sorted(range(len(shards)), key=lambda k: -sum(len(json.dumps(c["i"])) for c in shards[k][3]))
     res = {fn: [] for fn in funcs}
     errors = []
     with ThreadPoolExecutor(max_workers=jobs) as ex:
-        for (sh, r) in zip(shards, ex.map(_run_shard, shards)):
-            base = sh[2] * shard
+        for (k, r) in zip(order, ex.map(_run_shard, [shards[k] for k in order])):
+            sh = shards[k]
+            base = bases[k]
             if not r["ok"]:
                 errors.append(r)
                 continue
